@@ -19,8 +19,12 @@ KINDS = ["KConst", "KListCopy", "KDictCopy", "KTraitList", "KTraitDict", "KTrait
 
 
 # ---- declared class tables (what the configuration says; compared in Coq with what the driver observed)
-def tdef(kind, content, scalar, doid, nnotif, static):
-    return dict(kind=kind, content=list(content), scalar=scalar, doid=doid, nnotif=nnotif, static=static)
+CMP = {"none": 0, "identity": 1, "equality": 2}
+
+
+def tdef(kind, content, scalar, doid, nnotif, static, cmp=2, label=0):
+    return dict(kind=kind, content=list(content), scalar=scalar, doid=doid, nnotif=nnotif, static=static, cmp=cmp,
+                label=label)
 
 
 def declared(case):
@@ -31,7 +35,7 @@ def declared(case):
         if t["kind"] in CONTAINER:
             doid, nxt = nxt, nxt + 1
         d = tdef(t["kind"], t["content"], t["scalar"] if t["kind"] == "KTuple" else 0, doid,
-                 1 if t["static"] else 0, t["static"])
+                 1 if t["static"] else 0, t["static"], CMP[t.get("cmp", "equality")])
         base[t["name"]] = d
         rows0.append([t["name"], d])
     shared = case.get("shared_ct")
@@ -39,35 +43,40 @@ def declared(case):
         for n in sorted(shared["names"]):
             st = n in shared["static"]
             rows0.append([n, tdef("KConst", [shared["value"]], 0, 0, 1 if st else 0, st)])
+    special = []
     wild = case.get("wild")
-    if wild:      # wildcard names, resolved once per class by the driver: ordinary constant traits from then on
-        for n in sorted(wild["names"]):
-            st = n in wild["static"]
-            rows0.append([n, tdef("KConst", [wild["default"]], 0, 0, 1 if st else 0, st)])
+    if wild:      # the prefix trait (row -3) and, per name with a static handler, the definition it will get (3000 + n)
+        for n in sorted(wild["static"]):
+            special.append([n + 3000, tdef("KConst", [wild["default"]], 0, 0, 1, True)])
+        special.append([-3, tdef("KConst", [wild["default"]], 0, 0, 0, False)])
     ta = tdef("KEvent", [], 0, 0, 1, True)      # HasTraits' own static handler of trait_added
+    rows0 += special
     rows0.append([-1, ta])
     over = {o["name"]: o for o in case["sub"]}
     rows1 = []
-    for n, d in rows0[:-1]:
+    for n, d in [r for r in rows0 if 0 <= r[0] < 3000]:
         o = over.get(n)
         if o is None:
             rows1.append([n, d])
         elif o["how"] == "const":
-            rows1.append([n, tdef("KConst", o["content"], 0, 0, d["nnotif"], d["static"])])
+            # (a default overridden by plain assignment in the subclass body comes back with the default comparison mode)
+            rows1.append([n, tdef("KConst", o["content"], 0, 0, d["nnotif"], d["static"], 2)])
         elif o["how"] == "list":
-            rows1.append([n, tdef("KTraitList", o["content"], 0, nxt, d["nnotif"], d["static"])])
+            rows1.append([n, tdef("KTraitList", o["content"], 0, nxt, d["nnotif"], d["static"], 2)])
             nxt += 1
         elif d["kind"] in ("KConst", "KMethodInt"):
-            rows1.append([n, tdef("KMethodInt", o["content"], 0, 0, d["nnotif"], d["static"])])
+            rows1.append([n, tdef("KMethodInt", o["content"], 0, 0, d["nnotif"], d["static"], d["cmp"])])
         else:
-            rows1.append([n, tdef("KMethod", o["content"], 0, 0, d["nnotif"], d["static"])])
+            rows1.append([n, tdef("KMethod", o["content"], 0, 0, d["nnotif"], d["static"], d["cmp"])])
+    rows1 += special
     rows1.append([-1, ta])
     return [rows0, rows1], nxt
 
 
 # ---- terms
 def tdef_term(t):
-    return C("mkT", C(t["kind"]), list(t["content"]), t["scalar"], t["doid"], t["nnotif"], bool(t["static"]))
+    return C("mkT", C(t["kind"]), list(t["content"]), t["scalar"], t["doid"], t["nnotif"], bool(t["static"]),
+             t.get("cmp", 2), t.get("label", 0))
 
 
 def value_term(v):
@@ -92,8 +101,10 @@ def op_term(op):
         return C(k, op[1], op[2], op[3], bool(op[4]))
     if k == "AddTrait":
         return C(k, op[1], op[2], tdef_term(tdef(op[3]["kind"], op[3]["content"], 0, 0, 0, False)))
-    if k == "Introspect":
+    if k in ("Introspect",):
         return C(k, op[1], op[2])
+    if k in ("SetMeta", "AssignFrom"):
+        return C(k, op[1], op[2], op[3])
     if k == "NewInst":
         return C(k, op[1])
     raise ValueError(op)
@@ -111,11 +122,6 @@ def to_term(case, obs):
     h = []
     views = {}
     for op, ob in zip(case["ops"], obs["steps"]):
-        if op[0] == "AssignFrom":
-            # "assign instance i's container to instance j": for the model an Assign of equal contents (a copy)
-            src = dict((n, v) for n, v in views.get(op[3], {"dict": []})["dict"])
-            content, scalar = value_payload(src[op[2]]) if op[2] in src else ([], 0)
-            op = ["Assign", op[1], op[2], content, scalar]
         views[len(views) if op[0] == "NewInst" else op[1]] = ob["target"]
         h.append((op_term(op), C("mkO", value_term(ob["ret"]), inst_term(ob["target"]), list(ob["digests"]),
                                  ob["classes"], ob["next"], bool(ob["exc"]))))
@@ -231,8 +237,7 @@ def gen_case(rnd, ctx, maxlen):
         return traits[n]["content"]
 
     def assignable(n):
-        # setattr on a trait with comparison_mode none / identity notifies by other rules: not modelled, not generated
-        return n >= len(traits) or traits[n].get("cmp", "equality") == "equality"
+        return True
 
     mat = [set() for _ in ops]              # attributes certainly in __dict__ (read, mutated or assigned before)
     pending = []
@@ -276,10 +281,12 @@ def gen_case(rnd, ctx, maxlen):
             op = ["Mutate", i, n, 100 + s]
         elif r < 0.78:
             hid[0] += 1
-            op = ["Register", i, n, hid[0], rnd.random() < 0.5]
+            op = ["Register", i, n, hid[0], rnd.random() < 0.5 and not 60 <= n < 70]
             if rnd.random() < 0.25:
                 op = ["Register", i, -2, hid[0], False]        # on_trait_change(handler): every trait of the object
                 ctx.count("register:object-level")
+        elif r < 0.80 and extra[i]:
+            op = ["SetMeta", i, rnd.choice(sorted(extra[i])), rnd.randint(1, 9)]    # metadata of an added trait
         elif r < 0.86:
             op = ["Introspect", i, rnd.randint(0, 4)]
             if rnd.random() < 0.4:
@@ -356,7 +363,8 @@ def sharing_case():
            ["AddTrait", 0, 50, dict(sh)], ["AddTrait", 1, 50, dict(sh)], ["AddTrait", 2, 0, dict(sh)],
            ["Register", 0, 50, 1, False], ["Assign", 1, 50, [7], 0], ["Read", 1, 50], ["Register", 2, 0, 2, True],
            ["Assign", 0, 50, [8], 0], ["Assign", 1, 0, [6], 0],
-           ["AddTrait", 0, 51, dict(kind="KTraitList", content=[4])]]
+           ["AddTrait", 0, 51, dict(kind="KTraitList", content=[4])], ["SetMeta", 0, 50, 7], ["SetMeta", 1, 50, 8],
+           ["SetMeta", 0, 51, 9], ["Read", 1, 50], ["AddTrait", 0, 50, dict(kind="KConst", content=[1])]]
     ops += [["Introspect", 0, m] for m in range(5)] + [["Introspect", 1, 0], ["NewInst", 0], ["Introspect", 3, 1],
                                                        ["Read", 3, 0], ["Read", 3, 1], ["Read", 1, 1]]
     return dict(traits=traits, sub=[], ops=ops)
@@ -394,6 +402,11 @@ def comparison_mode_case(mode):
     ops += [["Register", 2, -2, 99, False]]
     for n in range(11):
         ops += [["Read", 0, n], ["Read", 0, n], ["Read", 1, n], ["Read", 2, n], ["Mutate", 1, n, 300 + n]]
+    # assignments: the same value again, a different one, and onto a never-read attribute of a new instance
+    ops += [["NewInst", 0]]
+    for n, same, other in ((0, [5], [6]), (3, [1, 2], [3]), (4, [1, 1], [2, 2]), (5, [1], [2]), (10, [4], [5]), (1, [1, 2], [9])):
+        ops += [["Assign", 0, n, same, 2], ["Assign", 0, n, other, 2], ["Assign", 0, n, other, 2], ["Assign", 3, n, same, 2],
+                ["Assign", 2, n, same, 2]]
     return dict(traits=traits, sub=[], ops=ops)
 
 
@@ -457,7 +470,7 @@ def run(ctx):
                        "double reads on the last instance; a case is non-trivial if >= 2 instances exist and some step "
                        "returns a container object; distinct = distinct (configuration, history)")
     rnd = random.Random(ctx.seed)
-    n, maxlen = (300, 12) if ctx.tier == "quick" else (3000, 30)
+    n, maxlen = (200, 12) if ctx.tier == "quick" else (3000, 30)
     if ctx.replay:
         cases = [json.load(open(ctx.replay))["replay"]["case"]]
     else:
